@@ -8,6 +8,7 @@ def insert_stubs(u, no_ctor_key=()):
     calls = {c['caller']: c['callees'] for c in u.json['calls']}
     byname = {f['name']: f for f in u.json['functions']}
     text, skipped, info = 'static int ORDER_CHECKED;\n', [], []
+    etypes, declared = {}, set()
     for f in u.json['functions']:
         if not re.search(r'rb_tree::container<.*>::insert$', f['qualified']):
             continue
@@ -21,7 +22,13 @@ def insert_stubs(u, no_ctor_key=()):
         if len(cmp_) != 1 or len(mk) != 1:
             raise Undecided('MUST-FIRE: insert %s: expected one comparator call and one make_node, found %s / %s' % (fn, cmp_, mk))
         k = len(info)
-        text += 'static %s* W%d; static %s* LAST%d; static int INS%d;\n#define CMP%d %s\n#define COMP%d_T %s\n' % (elem_t, k, elem_t, k, k, k, cmp_[0], k, comp_t)
+        # the witness belongs to the TABLE (an earlier element of that container object), whichever instantiation of insert entered it:
+        # two constructors sharing one table with different comparators (get_symbol / get_label) see each other's elements
+        ek = etypes.setdefault(elem_t, len(etypes))
+        if ek == len(etypes) - 1 and elem_t not in declared:
+            declared.add(elem_t)
+            text += 'static %s* WE%d; static void* WTAB%d; static %s* LASTE%d; static void* LASTTAB%d;\n' % (elem_t, ek, ek, elem_t, ek, ek)
+        text += '#define W%d WE%d\n#define LAST%d LASTE%d\n#define WT%d WTAB%d\n#define LASTT%d LASTTAB%d\nstatic int INS%d;\n#define CMP%d %s\n#define COMP%d_T %s\n' % (k, ek, k, ek, k, ek, k, ek, k, k, cmp_[0], k, comp_t)
         bycopy = key_t.endswith('3RepE') or 'Rep' in key_t.split('_')[-1]
         # ghost record of the first three (element, key) pairs entered, for the CMP-ORDER lemma
         text += 'static %s* RE%d[3]; static %s %sRK%d[3]; static %s RC%d[3]; static int REC%d;\n' % (elem_t, k, key_t, '' if bycopy else '*', k, comp_t, k, k)
@@ -39,13 +46,13 @@ def insert_stubs(u, no_ctor_key=()):
         text += '/* contract of %s, comparator as resolved by clang: %s */\n' % (f['qualified'], byname[cmp_[0]]['qualified'])
         text += '%s* %s(%s* self, %s* key, %s comp)\n{\n  INS%d++;\n' % (elem_t, fn, self_t, key_t, comp_t, k)
         text += '  __CPROVER_assume(self->__b0.f_count >= 0 && self->__b0.f_count < ((long)1 << 62));\n'
-        text += '  if (W%d != 0 && %s(&comp, W%d, key) == 0) return LAST%d = W%d;   /* an equal element exists: returned, nothing added */\n' % (k, cmp_[0], k, k, k)
+        text += '  if (W%d != 0 && WT%d == (void*)self && %s(&comp, W%d, key) == 0) { LASTT%d = self; return LAST%d = W%d; }   /* an equal element exists in this table: returned, nothing added */\n' % (k, k, cmp_[0], k, k, k, k)
         text += '  __typeof__(*%s(0, 0))* n = %s(self, key);                    /* otherwise a new element is built from the key */\n' % (mk[0], mk[0])
         text += '  self->__b0.f_count++;\n'
         if not any(x in byname[cmp_[0]]['qualified'] for x in no_ctor_key):   # tables whose element is completed after insertion (get_symbol sets the type afterwards)
             text += '  __CPROVER_assert(%s(&comp, &n->f_data, key) == 0, "CTOR-KEY: the element built from a key compares equal to that key");\n' % cmp_[0]
         text += '  if (REC%d < 3) { RE%d[REC%d] = &n->f_data; RK%d[REC%d] = %skey; RC%d[REC%d] = comp; REC%d++; }\n' % (k, k, k, k, k, '*' if bycopy else '', k, k, k)
-        text += '  return LAST%d = &n->f_data;\n}\n\n' % k
+        text += '  LASTT%d = self; return LAST%d = &n->f_data;\n}\n\n' % (k, k)
         skipped.append(fn)
         info.append(dict(k=k, fn=fn, table=f['qualified'], cmp=byname[cmp_[0]]['qualified'], elem=elem_t))
     text += 'static void order_check_all(void) { ' + ' '.join('order_check%d();' % x['k'] for x in info) + ' }\n'
@@ -61,7 +68,7 @@ def harness_for(name, spec, u, info, prop='C01', init='pools();'):
     t += '  __typeof__(%s) r1 = %s;\n' % (spec['call1'], spec['call1'])
     for cond, text in spec.get('checks', []):
         t += '  __CPROVER_assert(%s, "%s/C02: %s");\n' % (cond, prop, text)
-    t += ''.join('  W%d = LAST%d;\n' % (x['k'], x['k']) for x in info)   # whatever the first request entered is now in its table
+    t += ''.join('  W%d = LAST%d; WT%d = LASTT%d;\n' % (x['k'], x['k'], x['k'], x['k']) for x in info)   # whatever the first request entered is now in its table
     t += spec.get('mid', '')
     t += '  __typeof__(%s) r2 = %s;\n' % (spec['call2'], spec['call2'])
     for cond, text in spec.get('post', []):
